@@ -14,6 +14,7 @@ verus! {
 //@include bigrat_ops.rs
 //@include iter.rs
 //@include btree.rs
+//@include btree_iter.rs
 //@include baseunit.rs
 //@include string.rs
 //@include chrono.rs
